@@ -17,6 +17,7 @@ import (
 	"github.com/nspcc-dev/neo-go/pkg/config"
 	"github.com/nspcc-dev/neo-go/pkg/core"
 	"github.com/nspcc-dev/neo-go/pkg/core/interop/interopnames"
+	"github.com/nspcc-dev/neo-go/pkg/core/native/nativehashes"
 	"github.com/nspcc-dev/neo-go/pkg/core/state"
 	"github.com/nspcc-dev/neo-go/pkg/crypto/keys"
 	"github.com/nspcc-dev/neo-go/pkg/io"
@@ -311,7 +312,10 @@ func tokenMethod(target string, tf int) string { return fmt.Sprintf("t_%s_%d", t
 
 // buildRelay assembles relay number n with the given groups and permissions (relays maps abstract ids of
 // already known relays to hashes, for hash permissions; unknown ids map to a synthetic hash).
-func buildRelay(sender util.Uint160, n int, groups []int, perms []aPerm, hashOfID func(int) util.Uint160) *neotest.Contract {
+// tokenTarget (nil: none) is the contract the relay's two NEF method tokens point at: token 0 = tokenTarget.a (not
+// safe), token 1 = tokenTarget.s (safe), both with flags All; `ta`/`ts` execute CALLT 0 / CALLT 1. `upd` / `des`
+// have ContractManagement update / destroy the relay itself and then call another contract.
+func buildRelay(sender util.Uint160, n int, groups []int, perms []aPerm, hashOfID func(int) util.Uint160, tokenTarget *util.Uint160) *neotest.Contract {
 	config.Version = "verif"
 	w := io.NewBufBinWriter()
 	bw := w.BinWriter
@@ -377,6 +381,36 @@ func buildRelay(sender util.Uint160, n int, groups []int, perms []aPerm, hashOfI
 	emit.Syscall(bw, interopnames.SystemStorageGetContext)
 	emit.Syscall(bw, interopnames.SystemStoragePut)
 	emit.Opcodes(bw, opcode.RET)
+	// ta(path) / ts(path): CALLT 0 / CALLT 1 with the path argument handed on
+	taOff := w.Len()
+	emit.Instruction(bw, opcode.CALLT, []byte{0, 0})
+	emit.Opcodes(bw, opcode.RET)
+	tsOff := w.Len()
+	emit.Instruction(bw, opcode.CALLT, []byte{1, 0})
+	emit.Opcodes(bw, opcode.RET)
+	mgmt := nativehashes.ContractManagement
+	// upd(nef, manifest, target, method): ContractManagement.update(nef, manifest); System.Contract.Call(target, method, All, [[]])
+	updOff := w.Len()
+	emit.InitSlot(bw, 0, 4)
+	emit.Opcodes(bw, opcode.LDARG1, opcode.LDARG0, opcode.PUSH2, opcode.PACK, opcode.PUSH15)
+	emit.String(bw, "update")
+	emit.Bytes(bw, mgmt.BytesBE())
+	emit.Syscall(bw, interopnames.SystemContractCall)
+	emit.Opcodes(bw, opcode.DROP) // a dynamic call of a void method leaves Null
+	emit.Opcodes(bw, opcode.NEWARRAY0, opcode.PUSH1, opcode.PACK, opcode.PUSH15, opcode.LDARG3, opcode.LDARG2)
+	emit.Syscall(bw, interopnames.SystemContractCall)
+	emit.Opcodes(bw, opcode.RET)
+	// des(target, method): ContractManagement.destroy(); System.Contract.Call(target, method, All, [[]])
+	desOff := w.Len()
+	emit.InitSlot(bw, 0, 2)
+	emit.Opcodes(bw, opcode.NEWARRAY0, opcode.PUSH15)
+	emit.String(bw, "destroy")
+	emit.Bytes(bw, mgmt.BytesBE())
+	emit.Syscall(bw, interopnames.SystemContractCall)
+	emit.Opcodes(bw, opcode.DROP)
+	emit.Opcodes(bw, opcode.NEWARRAY0, opcode.PUSH1, opcode.PACK, opcode.PUSH15, opcode.LDARG1, opcode.LDARG0)
+	emit.Syscall(bw, interopnames.SystemContractCall)
+	emit.Opcodes(bw, opcode.RET)
 	if w.Err != nil {
 		panic(w.Err)
 	}
@@ -385,6 +419,13 @@ func buildRelay(sender util.Uint160, n int, groups []int, perms []aPerm, hashOfI
 	ne, err := nef.NewFile(script)
 	if err != nil {
 		panic(err)
+	}
+	if tokenTarget != nil {
+		ne.Tokens = []nef.MethodToken{
+			{Hash: *tokenTarget, Method: "a", ParamCount: 1, HasReturn: true, CallFlag: callflag.All},
+			{Hash: *tokenTarget, Method: "s", ParamCount: 1, HasReturn: true, CallFlag: callflag.All},
+		}
+		ne.Checksum = ne.CalculateChecksum()
 	}
 	m := manifest.NewManifest(fmt.Sprintf("verif-c16-relay-%d", n))
 	for _, md := range []struct {
@@ -403,6 +444,17 @@ func buildRelay(sender util.Uint160, n int, groups []int, perms []aPerm, hashOfI
 		Parameters: []manifest.Parameter{{Name: "from", Type: smartcontract.Hash160Type}, {Name: "amount", Type: smartcontract.IntegerType}, {Name: "data", Type: smartcontract.AnyType}}})
 	m.ABI.Events = append(m.ABI.Events, manifest.Event{Name: "E", Parameters: []manifest.Parameter{}})
 	m.ABI.Methods = append(m.ABI.Methods, manifest.Method{Name: "dyn", Offset: dynOff, ReturnType: smartcontract.AnyType,
+		Parameters: []manifest.Parameter{{Name: "hash", Type: smartcontract.Hash160Type}, {Name: "method", Type: smartcontract.StringType}}})
+	for _, md := range []struct {
+		name string
+		off  int
+	}{{"ta", taOff}, {"ts", tsOff}} {
+		m.ABI.Methods = append(m.ABI.Methods, manifest.Method{Name: md.name, Offset: md.off, ReturnType: smartcontract.ArrayType,
+			Parameters: []manifest.Parameter{{Name: "path", Type: smartcontract.ArrayType}}})
+	}
+	m.ABI.Methods = append(m.ABI.Methods, manifest.Method{Name: "upd", Offset: updOff, ReturnType: smartcontract.ArrayType,
+		Parameters: []manifest.Parameter{{Name: "nef", Type: smartcontract.ByteArrayType}, {Name: "manifest", Type: smartcontract.ByteArrayType}, {Name: "hash", Type: smartcontract.Hash160Type}, {Name: "method", Type: smartcontract.StringType}}})
+	m.ABI.Methods = append(m.ABI.Methods, manifest.Method{Name: "des", Offset: desOff, ReturnType: smartcontract.ArrayType,
 		Parameters: []manifest.Parameter{{Name: "hash", Type: smartcontract.Hash160Type}, {Name: "method", Type: smartcontract.StringType}}})
 	h := state.CreateContractHash(sender, ne.Checksum, m.Name)
 	for _, g := range groups {
@@ -435,8 +487,16 @@ func relayPlan() []relayInfo {
 		{id: 6, groups: []int{9}, perms: nil},
 		{id: 7, groups: nil, perms: []aPerm{{kind: 'w', methods: []string{}}, {kind: 'g', id: 9, methods: []string{"relay", "b"}}}},
 		{id: 8, groups: []int{7}, perms: []aPerm{{kind: 'h', id: 4, methods: []string{"relay", "a", "b"}}, {kind: 'g', id: 8, methods: []string{"b"}}, {kind: 'h', id: 8}}},
+		{id: 9, groups: nil, perms: []aPerm{{kind: 'h', id: mgmtID}}}, // may call ContractManagement only
+		{id: tokenTargetID, groups: []int{7, 9}, perms: nil},          // the contract the relays' method tokens point at (built without tokens)
 	}
 }
+
+// abstract ids of ContractManagement (in hash permissions) and of the method tokens' target.
+const (
+	mgmtID        = 1000
+	tokenTargetID = 10
+)
 
 // newWorld builds the chain at hardfork level hf and deploys the contracts. Any failure panics with *Failure
 // (caught by the caller).
@@ -454,7 +514,7 @@ func newWorld(hf int) *world {
 	w.genesis = bc.GetHeaderHash(0)
 	// relays first (the proxy's token points at relay 1)
 	plan := relayPlan()
-	ids := map[int]util.Uint160{}
+	ids := map[int]util.Uint160{mgmtID: nativehashes.ContractManagement}
 	hashOfID := func(id int) util.Uint160 {
 		if h, ok := ids[id]; ok {
 			return h
@@ -462,11 +522,18 @@ func newWorld(hf int) *world {
 		return hashOf(id)
 	}
 	// two passes: hashes do not depend on permissions (only sender, NEF checksum, name)
-	for i := range plan {
-		ids[plan[i].id] = buildRelay(w.acc, plan[i].id, plan[i].groups, nil, hashOfID).Hash
+	tgt := buildRelay(w.acc, tokenTargetID, []int{7, 9}, nil, hashOfID, nil).Hash
+	tokenTargetOf := func(id int) *util.Uint160 {
+		if id == tokenTargetID {
+			return nil
+		}
+		return &tgt
 	}
 	for i := range plan {
-		plan[i].c = buildRelay(w.acc, plan[i].id, plan[i].groups, plan[i].perms, hashOfID)
+		ids[plan[i].id] = buildRelay(w.acc, plan[i].id, plan[i].groups, nil, hashOfID, tokenTargetOf(plan[i].id)).Hash
+	}
+	for i := range plan {
+		plan[i].c = buildRelay(w.acc, plan[i].id, plan[i].groups, plan[i].perms, hashOfID, tokenTargetOf(plan[i].id))
 		w.e.DeployContract(w.tb, plan[i].c, nil)
 		if cs := bc.GetContractState(plan[i].c.Hash); cs != nil {
 			plan[i].cid = cs.ID
